@@ -150,4 +150,188 @@ theorem inv_acq {S : Spec State Op Ret} {n : Nat} {s0 : State} {c : Cfg State Op
   sorted := I.sorted
   retT := by intro p hp; have := I.retT p hp; exact ⟨Nat.lt_succ_of_lt this.1, this.2⟩
 
+theorem inv_rel {S : Spec State Op Ret} {n : Nat} {s0 : State} {c : Cfg State Op Ret}
+    (hro : ∀ s op, S.shared op = true → (S.step s op).1 = s)
+    (I : Inv S n s0 c) (t id : Nat) (op : Op) (sn : State) (ht : c.th t = .inCS id op sn) :
+    Inv S n s0 { c with mem := (S.step sn op).1, th := upd c.th t (.done id (S.step sn op).2),
+                        log := c.log ++ [⟨id, op, (S.step sn op).2, c.clk⟩], clk := c.clk + 1 } where
+  seq := by
+    have hs : sn = c.mem := I.seen t id op sn ht
+    simp only [List.map_append, List.map_cons, List.map_nil]
+    rw [seqRun_snoc, I.seq, hs]
+  bound := by
+    intro j hj
+    have : j ≠ t := by
+      intro e; subst e; have := I.bound j hj; rw [ht] at this; cases this
+    simp only [upd_other _ _ _ _ this]; exact I.bound j hj
+  seen := by
+    intro j id' o seen h
+    by_cases hj : j = t
+    · subst hj; simp [upd_same] at h
+    · simp only [upd_other _ _ _ _ hj] at h
+      have h1 : seen = c.mem := I.seen j id' o seen h
+      have h2 : sn = c.mem := I.seen t id op sn ht
+      have h3 : S.shared op = true := I.mutex t j id op sn id' o seen (fun e => hj e.symm) ht h
+      show seen = (S.step sn op).1
+      rw [hro sn op h3, h1, h2]
+  mutex := by
+    intro a b ida oa sa idb ob sb hab ha hb
+    by_cases h1 : a = t
+    · subst h1; simp [upd_same] at ha
+    · by_cases h2 : b = t
+      · subst h2; simp [upd_same] at hb
+      · simp only [upd_other _ _ _ _ h1] at ha; simp only [upd_other _ _ _ _ h2] at hb
+        exact I.mutex a b ida oa sa idb ob sb hab ha hb
+  calledT := by
+    intro j id' o h
+    by_cases hj : j = t
+    · subst hj; simp [upd_same] at h
+    · simp only [upd_other _ _ _ _ hj] at h; exact Nat.lt_succ_of_lt (I.calledT j id' o h)
+  csT := by
+    intro j id' o seen h
+    by_cases hj : j = t
+    · subst hj; simp [upd_same] at h
+    · simp only [upd_other _ _ _ _ hj] at h; exact Nat.lt_succ_of_lt (I.csT j id' o seen h)
+  doneT := by
+    intro j id' r h
+    by_cases hj : j = t
+    · subst hj; simp only [upd_same] at h; cases h
+      exact ⟨_, List.mem_append_right _ (List.mem_singleton.mpr rfl), rfl, rfl⟩
+    · simp only [upd_other _ _ _ _ hj] at h
+      obtain ⟨e, he, h1, h2⟩ := I.doneT j id' r h
+      exact ⟨e, List.mem_append_left _ he, h1, h2⟩
+  logT := by
+    intro e he
+    rcases List.mem_append.mp he with he | he
+    · have := I.logT e he; exact ⟨this.1, Nat.lt_succ_of_lt this.2⟩
+    · have := List.mem_singleton.mp he; subst this
+      exact ⟨I.csT t id op sn ht, Nat.lt_succ_self _⟩
+  sorted := by
+    rw [List.pairwise_append]
+    refine ⟨I.sorted, List.pairwise_singleton _ _, ?_⟩
+    intro a ha b hb
+    have := List.mem_singleton.mp hb; subst this
+    exact (I.logT a ha).2
+  retT := by
+    intro p hp
+    obtain ⟨h1, e, he, h2⟩ := I.retT p hp
+    exact ⟨Nat.lt_succ_of_lt h1, e, List.mem_append_left _ he, h2⟩
+
+theorem inv_ret {S : Spec State Op Ret} {n : Nat} {s0 : State} {c : Cfg State Op Ret}
+    (I : Inv S n s0 c) (t id : Nat) (r : Ret) (ht : c.th t = .done id r) :
+    Inv S n s0 { c with th := upd c.th t .idle, rets := ⟨id, r, c.clk⟩ :: c.rets, clk := c.clk + 1 } where
+  seq := I.seq
+  bound := by
+    intro j hj
+    by_cases h : j = t
+    · subst h; simp [upd_same]
+    · simp only [upd_other _ _ _ _ h]; exact I.bound j hj
+  seen := by
+    intro j id' o seen h
+    by_cases hj : j = t
+    · subst hj; simp [upd_same] at h
+    · simp only [upd_other _ _ _ _ hj] at h; exact I.seen j id' o seen h
+  mutex := by
+    intro a b ida oa sa idb ob sb hab ha hb
+    by_cases h1 : a = t
+    · subst h1; simp [upd_same] at ha
+    · by_cases h2 : b = t
+      · subst h2; simp [upd_same] at hb
+      · simp only [upd_other _ _ _ _ h1] at ha; simp only [upd_other _ _ _ _ h2] at hb
+        exact I.mutex a b ida oa sa idb ob sb hab ha hb
+  calledT := by
+    intro j id' o h
+    by_cases hj : j = t
+    · subst hj; simp [upd_same] at h
+    · simp only [upd_other _ _ _ _ hj] at h; exact Nat.lt_succ_of_lt (I.calledT j id' o h)
+  csT := by
+    intro j id' o seen h
+    by_cases hj : j = t
+    · subst hj; simp [upd_same] at h
+    · simp only [upd_other _ _ _ _ hj] at h; exact Nat.lt_succ_of_lt (I.csT j id' o seen h)
+  doneT := by
+    intro j id' r' h
+    by_cases hj : j = t
+    · subst hj; simp [upd_same] at h
+    · simp only [upd_other _ _ _ _ hj] at h; exact I.doneT j id' r' h
+  logT := by intro e he; have := I.logT e he; exact ⟨this.1, Nat.lt_succ_of_lt this.2⟩
+  sorted := I.sorted
+  retT := by
+    intro p hp
+    rcases List.mem_cons.mp hp with hp | hp
+    · subst hp
+      obtain ⟨e, he, h1, h2⟩ := I.doneT t id r ht
+      exact ⟨Nat.lt_succ_self _, e, he, h1, h2, (I.logT e he).2⟩
+    · obtain ⟨h1, h2⟩ := I.retT p hp
+      exact ⟨Nat.lt_succ_of_lt h1, h2⟩
+
+/-- every enabled event of a history that respects the lock discipline preserves the invariant -/
+theorem inv_next [DecidableEq Ret] {S : Spec State Op Ret} {n : Nat} {s0 : State}
+    (hro : ∀ s op, S.shared op = true → (S.step s op).1 = s)
+    {c c' : Cfg State Op Ret} (I : Inv S n s0 c) (e : Ev Op Ret)
+    (h : next S true n c e = some c') : Inv S n s0 c' := by
+  cases e with
+  | inv t op =>
+    simp only [next] at h
+    split at h
+    · rename_i ht
+      split at h
+      · rename_i hn; cases h; exact inv_inv I t op ht hn
+      · cases h
+    · cases h
+  | acq t =>
+    simp only [next] at h
+    split at h
+    · rename_i id op ht
+      split at h
+      · rename_i hg
+        cases h
+        simp only [Bool.not_true, Bool.false_or] at hg
+        exact inv_acq I t id op ht hg
+      · cases h
+    · cases h
+  | rel t =>
+    simp only [next] at h
+    split at h
+    · rename_i id op sn ht; cases h; exact inv_rel hro I t id op sn ht
+    · cases h
+  | ret t r =>
+    simp only [next] at h
+    split at h
+    · rename_i id r' ht
+      split at h
+      · rename_i hr; cases h; subst hr; exact inv_ret I t id r ht
+      · cases h
+    · cases h
+
+theorem inv_run [DecidableEq Ret] {S : Spec State Op Ret} {n : Nat} {s0 : State}
+    (hro : ∀ s op, S.shared op = true → (S.step s op).1 = s)
+    (tr : List (Ev Op Ret)) {c c' : Cfg State Op Ret} (I : Inv S n s0 c)
+    (h : run S true n c tr = some c') : Inv S n s0 c' := by
+  induction tr generalizing c with
+  | nil => simp only [run] at h; cases h; exact I
+  | cons e es ih =>
+    simp only [run] at h
+    split at h
+    · rename_i c1 h1; exact ih (inv_next hro I e h1) h
+    · cases h
+
+/-- the clock is the number of events replayed: ids and times are positions in the history -/
+theorem run_clk [DecidableEq Ret] {S : Spec State Op Ret} {mx : Bool} {n : Nat}
+    (tr : List (Ev Op Ret)) {c c' : Cfg State Op Ret}
+    (h : run S mx n c tr = some c') : c'.clk = c.clk + tr.length := by
+  induction tr generalizing c with
+  | nil => simp only [run] at h; cases h; simp
+  | cons e es ih =>
+    simp only [run] at h
+    split at h
+    · rename_i c1 h1
+      have h2 : c1.clk = c.clk + 1 := by
+        cases e <;> simp only [next] at h1 <;> split at h1 <;> first
+          | (split at h1 <;> first | (cases h1; rfl) | cases h1)
+          | (cases h1; rfl)
+          | cases h1
+      rw [ih h, h2, List.length_cons]; omega
+    · cases h
+
 end Model.LockAtomic
